@@ -120,32 +120,45 @@ Proof. unfold leader_effects, eff_net; simpl. lia. Qed.
 Lemma crash_leader_effects c t p b : has_crash (leader_effects c t p b) = false.
 Proof. reflexivity. Qed.
 
-Lemma flush_balance f c t p : stable f -> forall h hasbp leader lv ls,
-  has_crash (snd (flush c t p h hasbp leader lv ls)) = false ->
-  levels_w f lv = levels_w f (snd (fst (flush c t p h hasbp leader lv ls))) + esum (eff_net f) (snd (flush c t p h hasbp leader lv ls)).
+Lemma flush_sends_balance f c t p : stable f -> forall buf sq ep,
+  esum (eff_net f) (fst (flush_sends c t p sq ep buf)) = wsum f buf /\ has_crash (fst (flush_sends c t p sq ep buf)) = false.
 Proof.
-  intros Hf. induction h as [|h' IH]; intros hasbp leader lv ls Hc; [simpl in Hc; discriminate|].
+  intros Hf. induction buf as [|m r IH]; intros sq ep; [split; reflexivity|]. cbn [flush_sends].
+  destruct (c_idem c && fresh_pass m && is_data m && negb (m_hasseq m)).
+  - specialize (IH (sq + 1) ep). destruct (flush_sends c t p (sq + 1) ep r) as [e sq']. cbn [fst] in *. destruct IH as [A B].
+    rewrite !esum_cons, wsum_cons, A. unfold eff_net at 1 2; simpl. rewrite stable_set_stamp by assumption. split; [lia|exact B].
+  - specialize (IH sq ep). destruct (flush_sends c t p sq ep r) as [e sq']. cbn [fst] in *. destruct IH as [A B].
+    rewrite esum_cons, wsum_cons, A. unfold eff_net at 1; simpl. split; [lia|exact B].
+Qed.
+
+Lemma flush_balance f c t p : stable f -> forall h hasbp leader lv stamp ls,
+  has_crash (snd (flush c t p h hasbp leader lv stamp ls)) = false ->
+  levels_w f lv = levels_w f (snd (fst (flush c t p h hasbp leader lv stamp ls))) + esum (eff_net f) (snd (flush c t p h hasbp leader lv stamp ls)).
+Proof.
+  intros Hf. induction h as [|h' IH]; intros hasbp leader lv stamp ls Hc; [simpl in Hc; discriminate|].
   cbn [flush] in *.
   set (buf := l_buf (get_level h' lv)) in *.
   assert (Hlv : levels_w f (set_buf h' [] lv) = levels_w f lv - wsum f buf) by apply levels_w_set_buf_nil.
+  destruct (flush_sends_balance f c t p Hf buf (fst stamp) (snd stamp)) as [FS FC].
+  destruct (flush_sends c t p (fst stamp) (snd stamp) buf) as [fe sq'] eqn:Efs. cbn [fst] in FS, FC.
   destruct hasbp.
   - destruct (l_chaser (get_level h' lv) || (h' =? 0)%nat).
-    + cbn [fst snd]. rewrite net_sends by assumption. lia.
-    + specialize (IH true leader (set_buf h' [] lv) ls).
-      destruct (flush c t p h' true leader (set_buf h' [] lv) ls) as [res effs2]. cbn [fst snd] in *.
+    + cbn [fst snd]. lia.
+    + specialize (IH true leader (set_buf h' [] lv) (sq', snd stamp) ls).
+      destruct (flush c t p h' true leader (set_buf h' [] lv) (sq', snd stamp) ls) as [res effs2]. cbn [fst snd] in *.
       rewrite has_crash_app in Hc. apply orb_false_iff in Hc as [_ Hc2].
-      rewrite esum_app, net_sends by assumption. specialize (IH Hc2). lia.
+      rewrite esum_app. specialize (IH Hc2). lia.
   - destruct (next_lres ls) as [[b|e] r].
     + destruct (l_chaser (get_level h' lv) || (h' =? 0)%nat).
-      * cbn [fst snd]. rewrite esum_app, net_leader_effects, net_sends by assumption. lia.
-      * specialize (IH true b (set_buf h' [] lv) r).
-        destruct (flush c t p h' true b (set_buf h' [] lv) r) as [res effs2]. cbn [fst snd] in *.
+      * cbn [fst snd]. rewrite esum_app, net_leader_effects. lia.
+      * specialize (IH true b (set_buf h' [] lv) (sq', snd stamp) r).
+        destruct (flush c t p h' true b (set_buf h' [] lv) (sq', snd stamp) r) as [res effs2]. cbn [fst snd] in *.
         rewrite has_crash_app in Hc. apply orb_false_iff in Hc as [_ Hc2].
-        rewrite !esum_app, net_leader_effects, net_sends by assumption. specialize (IH Hc2). lia.
+        rewrite !esum_app, net_leader_effects. specialize (IH Hc2). lia.
     + destruct (l_chaser (get_level h' lv) || (h' =? 0)%nat).
       * cbn [fst snd]. rewrite net_return_errors by assumption. lia.
-      * specialize (IH false leader (set_buf h' [] lv) r).
-        destruct (flush c t p h' false leader (set_buf h' [] lv) r) as [res effs2]. cbn [fst snd] in *.
+      * specialize (IH false leader (set_buf h' [] lv) (fst stamp, snd stamp) r).
+        destruct (flush c t p h' false leader (set_buf h' [] lv) (fst stamp, snd stamp) r) as [res effs2]. cbn [fst snd] in *.
         rewrite has_crash_app in Hc. apply orb_false_iff in Hc as [_ Hc2].
         rewrite esum_app, net_return_errors by assumption. specialize (IH Hc2). lia.
 Qed.
@@ -203,8 +216,8 @@ Proof.
         -- rewrite levels_w_push_buf by exact El. simpl. lia.
       * destruct (is_fin m).
         -- pose proof (flush_balance f c t p Hf (p_hwm st1) (p_has_bp st1) (p_leader st1)
-                        (set_chaser (p_hwm st1) false (p_levels st1)) ls) as Hfl.
-           destruct (flush c t p (p_hwm st1) (p_has_bp st1) (p_leader st1) _ ls) as [[[[h' hasbp] leader] lv'] effs].
+                        (set_chaser (p_hwm st1) false (p_levels st1)) stamp ls) as Hfl.
+           destruct (flush c t p (p_hwm st1) (p_has_bp st1) (p_leader st1) _ stamp ls) as [[[[h' hasbp] leader] lv'] effs].
            cbn [fst snd] in *. intros Hc. rewrite !has_crash_app in Hc. apply orb_false_iff in Hc as [_ Hc].
            apply orb_false_iff in Hc as [Hc _]. specialize (Hfl Hc).
            rewrite levels_w_set_chaser in Hfl. rewrite !esum_app, He1. cbn [p_levels].
